@@ -438,6 +438,9 @@ Definition tg_retransmit (s : tg_sess) (id : Z) (giveup : bool) : tg_sess * list
         else
           let '(s2, o2, bw) := tg_session_send s1 m in
           if (0 <=? bw) && tm_con m then (tg_set_con_active s2 (ts_con_active s2 + 1), o2)
+          else if (bw <? 0) && (0 <? ts_con_active s) && tg_in id (tg_ids (ts_sendq s2))
+               (* not transmitted but still queued for the next attempt: keeps its NSTART slot *)
+          then (tg_set_con_active s2 (ts_con_active s2 + 1), o2)
           else (s2, o2)
   end.
 
